@@ -73,6 +73,8 @@ class Ctx:
     def fresh(self, nm, sort='R'):
         self.n += 1
         name = f"{nm}!{self.n}"
+        if not isinstance(sort, str):
+            return z3.Const(name, sort)
         if sort == 'R':
             return z3.Real(name)
         if sort == 'I':
@@ -1300,6 +1302,33 @@ class Interp:
                             mutated.add(t.value.id)
                 elif isinstance(n, ast.Name) and isinstance(n.ctx, ast.Load):
                     read.add(n.id)
+        # the same for a list held in an attribute of a local object (`self.acc.append(x)`): append-only -> accumulator,
+        # otherwise unknown content
+        attr_app, attr_mut, attr_read = set(), set(), set()
+        for stn in body:
+            for n in ast.walk(stn):
+                if isinstance(n, ast.Call) and isinstance(n.func, ast.Attribute) and isinstance(n.func.value, ast.Attribute) \
+                        and isinstance(n.func.value.value, ast.Name) and n.func.attr in self.MUTATORS:
+                    key = (n.func.value.value.id, n.func.value.attr)
+                    (attr_app if n.func.attr == 'append' else attr_mut).add(key)
+        for stn in body:
+            for n in ast.walk(stn):
+                if isinstance(n, ast.Attribute) and isinstance(n.value, ast.Name) and isinstance(n.ctx, ast.Load) \
+                        and (n.value.id, n.attr) in attr_app | attr_mut:
+                    attr_read.add((n.value.id, n.attr))
+        for (onm, anm) in attr_app | attr_mut:
+            o = env.get(onm)
+            if isinstance(o, Obj) and isinstance(o.f.get(anm), list):
+                # every `x.a.append(..)` is itself one Load of x.a: more loads than mutating calls means the body reads it
+                loads = sum(1 for stn in body for n in ast.walk(stn) if isinstance(n, ast.Attribute) and isinstance(n.value, ast.Name)
+                            and isinstance(n.ctx, ast.Load) and (n.value.id, n.attr) == (onm, anm))
+                calls = sum(1 for stn in body for n in ast.walk(stn) if isinstance(n, ast.Call) and isinstance(n.func, ast.Attribute)
+                            and isinstance(n.func.value, ast.Attribute) and isinstance(n.func.value.value, ast.Name)
+                            and (n.func.value.value.id, n.func.value.attr) == (onm, anm) and n.func.attr in self.MUTATORS)
+                if (onm, anm) in attr_app and (onm, anm) not in attr_mut and loads == calls:
+                    o.f[anm] = Accum(f"{onm}.{anm}", init=o.f[anm])
+                else:
+                    o.f[anm] = HavocColl(f"{onm}.{anm}")
         for nm in mutated | appended_only:
             v = env.get(nm)
             if isinstance(v, (SetVal, list, dict)) and not isinstance(v, (SymDict,)):
@@ -1544,13 +1573,23 @@ class Interp:
         c = truth(ctx, self.ev(st.test, env))
         if ctx.branch(c, f"while{lid}"):
             ctx.loop_stack.append(lid)
+            ev_mark = len(ctx.events)
+            ctx.events.append(Event('iter-begin', lid=lid, elem=None, loops=list(ctx.loop_stack), mark=Obj._n))
+            how = 'end'
             try:
                 self.block(st.body, env)
             except _Continue:
-                pass
+                how = 'continue'
             except _Break:
                 if not spec.get('allow_break'):
                     raise Unsupported(f"undeclared break in while loop {lid}")
+                how = 'break'
+            if spec.get('body_post'):
+                spec['body_post'](self, env, pre_env, None, ctx.events[ev_mark:], how)
+                if how == 'break':
+                    # a declared break leaves the loop: execution continues AFTER the loop from the state at the break
+                    ctx.loop_stack.pop()
+                    return
             for nm, g in spec['inv'](self, env):
                 ctx.oblige(f"{lid[0]}::loop{lid[1]}::inv-preserved::{nm}", g, kind='inv-pres')
             if variant0 is not None:
